@@ -211,6 +211,10 @@ def convert_torus(val):
         # transform_mat = rotation_from_vectors((0.0, 0.0, 1.0), axis)
         # transform = (transform_tr, transform_mat)
         type_surface = T4S.TORUSZ
+        if axis[2] < 0.0:
+            # a torus does not change when its axis is reversed, but the
+            # rotation taking z to an axis close to -z is ill-conditioned
+            axis = [-comp for comp in axis]
         transform_mat = rotation_from_vectors((0.0, 0.0, 1.0), axis)
         center = transform_mat.T.dot(center)
         param[:3] = list(center.flat)
